@@ -1437,6 +1437,17 @@ pub fn run(ctx: &mut Ctx) {
             }
         }
     }
+    // the largest legal chunk-size octet (16 = 4 MiB): every altered value of that octet is out of range,
+    // none may be folded back onto a legal size
+    for (sym, aead) in [(7u8, 2u8), (9, 3), (8, 1)] {
+        let cfg = Cfg::V2 { sym, aead, co: 16 };
+        if let Some(p) = payload_for_inner(9) {
+            specs.push((cfg, p, None, false));
+        }
+        if quick {
+            break;
+        }
+    }
     for (ai, &alg) in v1_algs.iter().enumerate() {
         let cfg = Cfg::V1 { alg };
         let mut small = vec![0usize, 1, 2, 15, 16, 17, 64];
